@@ -24,7 +24,7 @@ THEOREMS = [
     "AiuVerif.C03.shared_barrier_ok",
     "AiuVerif.C03.shared_barrier_batch",
 ]
-RULE = ("stage graphs over {pass,drop,dup,expand,dropall,hold,rev,delay,barrier}: exhaustive up to a length "
+RULE = ("stage graphs over {pass,drop,dup,expand,dropall,hold,rev,delay,gen,barrier}: exhaustive up to a length "
         "bound x inputs of length 0..3, plus random graphs up to length 12 with inputs up to 30; a case is "
         "non-trivial when at least one event is delivered to a stage behind a holding/barrier stage or "
         "a stage changes the event count; distinct = distinct (graph, input)")
@@ -33,7 +33,7 @@ TRUSTED = ["aliasing of one dict object between two emitted events is not modell
 ASSUMPTIONS = ["callbacks are deterministic functions of (event, context state)"]
 NOT_YET_PROVED = []
 
-KINDS = ["pass", "drop", "dup", "expand", "dropall", "hold", "rev", "delay", "barrier"]
+KINDS = ["pass", "drop", "dup", "expand", "dropall", "hold", "rev", "delay", "gen", "barrier"]
 
 
 # ---------------------------------------------------------------------------------------------
@@ -76,6 +76,8 @@ def run_real(kinds, inp, shared=False):
         def drain(self):
             drains.append(self.idx)
             r, self.h = self.h, []
+            if self.kind == "gen":
+                r = [_mk_event(9000)]      # an event synthesized at drain time
             emis[self.idx] += [e["args"]["id"] for e in r]
             return r
 
@@ -104,6 +106,8 @@ def run_real(kinds, inp, shared=False):
             elif kind == "delay":
                 r = context.h
                 context.h = [event]
+            elif kind == "gen":
+                r = [event]
             else:
                 raise ValueError(kind)
             emis[i] += [e["args"]["id"] for e in r]
@@ -235,7 +239,8 @@ def oracle(kinds, inp, r, shared=False):
 
 
 def nontrivial(kinds, inp, r):
-    return len(inp) > 0 and any(k in ("hold", "rev", "delay", "barrier", "dup", "expand", "drop", "dropall") for k in kinds) \
+    return (len(inp) > 0 or "gen" in kinds) and \
+        any(k in ("hold", "rev", "delay", "barrier", "dup", "expand", "drop", "dropall", "gen") for k in kinds) \
         and len(r["log"]) > len(inp)
 
 
